@@ -360,15 +360,33 @@ pub fn detect_conditions(bf: &BodyForm) -> Result<Vec<CSECondition>, CompileErr>
 // True if for some condition path c_path there are matching instance paths
 // for either c_path + [CallArgument(1)] or both
 // c_path + [CallArgument(2)] and c_path + [CallArgument(3)]
-fn cse_is_covering(c_path: &[BodyformPathArc], instances: &[CSEInstance]) -> bool {
+fn cse_is_covering(
+    c_path: &[BodyformPathArc],
+    conditions: &[CSECondition],
+    instances: &[CSEInstance],
+) -> bool {
     let mut target_paths = [c_path.to_vec(), c_path.to_vec(), c_path.to_vec()];
     target_paths[0].push(BodyformPathArc::CallArgument(1));
     target_paths[1].push(BodyformPathArc::CallArgument(2));
     target_paths[2].push(BodyformPathArc::CallArgument(3));
 
+    // An instance inside a branch only counts when it is sure to be evaluated
+    // once the branch is: every condition between the branch and the instance
+    // must be covered in the same way.
     let have_targets: Vec<bool> = target_paths
         .iter()
-        .map(|t| instances.iter().any(|i| path_overlap_one_way(t, &i.path)))
+        .map(|t| {
+            instances.iter().any(|i| {
+                path_overlap_one_way(t, &i.path)
+                    && conditions
+                        .iter()
+                        .filter(|c| {
+                            path_overlap_one_way(t, &c.path)
+                                && path_overlap_one_way(&c.path, &i.path)
+                        })
+                        .all(|c| c.canonical && cse_is_covering(&c.path, conditions, instances))
+            })
+        })
         .collect();
 
     have_targets[0] || (have_targets[1] && have_targets[2])
@@ -413,7 +431,7 @@ pub fn cse_classify_by_conditions(
             // it encloses.
             let fully_canonical = applicable_conditions
                 .iter()
-                .all(|c| c.canonical && cse_is_covering(&c.path, &d.instances));
+                .all(|c| c.canonical && cse_is_covering(&c.path, conditions, &d.instances));
 
             Some(CSEDetection {
                 hash: d.hash.clone(),
